@@ -15,6 +15,7 @@ pub struct RttCalcuator {
     rttvar: Duration,
     granularity: Duration,
     configured_rto: Duration,
+    has_sample: bool,
 }
 
 impl RttCalcuator {
@@ -31,6 +32,7 @@ impl RttCalcuator {
             rto,
             granularity,
             configured_rto: rto,
+            has_sample: false,
         }
     }
 
@@ -40,14 +42,16 @@ impl RttCalcuator {
         self.srtt = Duration::default();
         self.rttvar = Duration::default();
         self.rto = self.configured_rto;
+        self.has_sample = false;
     }
 
     // Updates the RTT calculation
     // # Arguments
     // * `r` - The round trip time
     pub fn update(&mut self, r: Duration) {
-        if self.srtt == Duration::default() {
+        if !self.has_sample {
             // First RTT measurement
+            self.has_sample = true;
             self.srtt = r;
             self.rttvar = r / 2;
             self.rto = self.srtt + cmp::max(self.granularity, self.rttvar * K);
